@@ -21,7 +21,7 @@ def compare(vec, line, v, what):
     def rep(kind, desc):
         v.violation("%s kind=%s" % (key, kind), desc, {"vector": vec, "observed": {"status": status, "ret": ret, "post": post}, "where": what})
         return False
-    if status.startswith("fault"):
+    if status.startswith("fault") or status.startswith("crash"):
         return rep("fault", "%s: builder faulted (%s) for len=%d id=%s" % (what, status, vec["len"], hexs(vec["id"])))
     ok = True
     if post != hexs(vec["post"]):
@@ -37,7 +37,7 @@ def replay(v, ex, vectors, rnd):
     for vec in vectors:
         for place, off in (("E", 0), ("S", rnd.randrange(16))):
             cmds.append(cmd(vec, place, off)); meta.append((vec, "placement %s+%d" % (place, off)))
-    outs = ex.run(cmds)
+    outs = ex.run_robust(cmds)
     if len(outs) != len(cmds): raise Infra("executor died in CAN replay: " + ex.stderr[-400:])
     bad = sum(0 if compare(vec, line, v, what) else 1 for (vec, what), line in zip(meta, outs))
     return {"executed": len(cmds), "mismatches": bad}
@@ -64,7 +64,7 @@ def finish(evs, outs, v):
         t = line.split()
         status, ret, post, canary = t[1], t[2], t[5], t[6]
         key = "can kind=%s op=%s" % (ev["kind"], ev["op"])
-        if status.startswith("fault"):
+        if status.startswith("fault") or status.startswith("crash"):
             v.violation(key + " kind=fault", "random builder call faulted (%s), len=%d" % (status, ev["len"]), {"event": ev}); continue
         if canary != "0":
             v.violation(key + " kind=canary", "random builder call wrote outside its arena, len=%d" % ev["len"], {"event": ev}); continue
